@@ -61,8 +61,12 @@ def sample_contract(reg,c,repo,seed,count):
   ns=runtime.macro_namespace()
   per_case={cs.name:0 for cs in c.cases}; fails=[]; ev=0; skipped=0
   variants=c.variants()
+  # native evaluation of quantified contracts is slow (nested loops over the object universe): the sampler stops after a wall-clock
+  # budget per contract and reports how many evaluations it made
+  t_end=time.time()+float(os.environ.get('VERIF_SAMPLE_BUDGET','90' if count<=200 else '900'))
   for variant in variants:
     for i in range(count):
+      if time.time()>t_end and ev>=20: break
       n=rng.choice(WIDTHS)
       if c.sample is not None: args=c.sample(rng,n,variant,repo,reg)
       else: args={p:sample_value(t,rng,n,repo,reg,p) for p,t in variant.items()}
